@@ -161,6 +161,11 @@ class CFG:
             self._edge((n, None), self._loops[-1][0])
             return []
         if isinstance(st, ast.Return):
+            if isinstance(st.value, ast.IfExp):
+                # `return A if C else B` is the same as `if C: return A` / `else: return B`:
+                # split it so that facts about C are available at each returned value
+                self.by_ast.setdefault(id(st), self._n + 1)
+                return self._return_ifexp(st, st.value, preds)
             n = self._new("return", st)
             self._link(preds, n)
             self._may_raise(n, st.value)
@@ -193,6 +198,23 @@ class CFG:
             self._may_raise(n, *[i.context_expr for i in st.items])
             return self._block(st.body, [(n, None)])
         raise AnalysisError("CFG: statement kind not modelled: %s (line %s)" % (type(st).__name__, getattr(st, "lineno", "?")))
+
+    def _return_ifexp(self, st, e, preds):
+        t, f = self._test(e.test, preds, st)
+        for val, ps in ((e.body, t), (e.orelse, f)):
+            if isinstance(val, ast.IfExp):
+                self._return_ifexp(st, val, ps)
+                continue
+            syn = ast.Return(value=val)
+            ast.copy_location(syn, val)
+            syn._parent = getattr(st, "_parent", None)
+            syn._synthetic_of = st
+            n = self._new("return", syn)
+            self.by_ast.setdefault(id(val), n)
+            self._link(ps, n)
+            self._may_raise(n, val)
+            self._edge((n, None), self.EXIT)
+        return []
 
     # ------------------------------------------------------------------ queries
     def nodes(self, kind=None, pred=None):
@@ -292,6 +314,36 @@ class CFG:
         test node `nid`."""
         avoid_e = {(nid, b, l) for (b, l) in self.succ[nid] if l == label}
         return self.EXIT not in self.reach(self.ENTRY, avoid_edges=avoid_e)
+
+    def consistent_states(self, key_of, start=None):
+        """Path-sensitive reachability with correlated tests: tests that `key_of` maps to the same key
+        are assumed to have the same outcome along one path (the same boolean local tested twice, the
+        same comparison repeated in an elif chain).  key_of(node id) -> (key, flipped) or None; the T
+        edge of the node means key == (not flipped).  Returns {node: set of frozenset((key, bool))}: the
+        assignments with which each node can be reached from `start` (default ENTRY)."""
+        start = self.ENTRY if start is None else start
+        seen = {}
+        todo = [(start, frozenset())]
+        while todo:
+            n, asg = todo.pop()
+            if asg in seen.setdefault(n, set()):
+                continue
+            seen[n].add(asg)
+            k = key_of(n) if self.kind[n] == "test" else None
+            d = dict(asg)
+            for (b, lab) in self.succ[n]:
+                if k is not None and lab in ("T", "F"):
+                    key, flipped = k
+                    val = (lab == "T") != flipped
+                    if key in d:
+                        if d[key] != val:
+                            continue
+                        todo.append((b, asg))
+                    else:
+                        todo.append((b, frozenset(list(asg) + [(key, val)])))
+                else:
+                    todo.append((b, asg))
+        return seen
 
     def returns(self):
         return [n for n in self.kind if self.kind[n] == "return"]
